@@ -52,8 +52,11 @@ import (
 // ipv4-reassembly, section-count, decode-failed, panic. The key is
 // "<feature>/<pcap|pcapng>"; the feature is the most specific property of the
 // history of the direction or datagram concerned (netsim.DirTruth.Feature):
-// frag-eqlen, seqwrap-back, fragorder, seqwrap, plain. Link type(s) and exact
-// file type lead the detail text in brackets.
+// frag-eqlen, seqwrap-back, fragorder, seqwrap, ipv6-v4mapped, ipv6, plain
+// (ipv6: the direction, or the connection that is missing or mislabelled, was
+// carried over IPv6; ipv6-v4mapped: ... and the address concerned is
+// ::ffff:a.b.c.d). Link type(s) and exact file type lead the detail text in
+// brackets.
 func init() { core.Register(&hnet{}) }
 
 type hnet struct{}
@@ -272,6 +275,78 @@ func hnetExtract(root *decode.Value) (*hnetFlows, error) {
 
 func ipString(ip [4]byte) string { return fmt.Sprintf("%d.%d.%d.%d", ip[0], ip[1], ip[2], ip[3]) }
 
+// ip6String is the textual form of an IPv6 address as RFC 5952 recommends it,
+// written here from the RFC (no net / netip): lower case hexadecimal groups
+// without leading zeros; the longest run of two or more zero groups, the first
+// one when several are equally long, is replaced by "::"; a single zero group
+// is written "0"; an IPv4-mapped address (::ffff:a.b.c.d) has its last 32 bits
+// in dotted decimal (section 5).
+func ip6String(a [16]byte) string {
+	var g [8]int
+	for i := range g {
+		g[i] = int(a[2*i])<<8 | int(a[2*i+1])
+	}
+	if g[0]|g[1]|g[2]|g[3]|g[4] == 0 && g[5] == 0xffff {
+		return "::ffff:" + ipString([4]byte{a[12], a[13], a[14], a[15]})
+	}
+	bestAt, bestLen := -1, 1
+	for i := 0; i < 8; {
+		if g[i] != 0 {
+			i++
+			continue
+		}
+		j := i
+		for j < 8 && g[j] == 0 {
+			j++
+		}
+		if j-i > bestLen {
+			bestAt, bestLen = i, j-i
+		}
+		i = j
+	}
+	const hexd = "0123456789abcdef"
+	var sb strings.Builder
+	for i := 0; i < 8; i++ {
+		if i == bestAt {
+			sb.WriteString("::")
+			i += bestLen - 1
+			continue
+		}
+		if i > 0 && i != bestAt+bestLen {
+			sb.WriteByte(':')
+		}
+		v, started := g[i], false
+		for sh := 12; sh >= 0; sh -= 4 {
+			if d := v >> uint(sh) & 15; d != 0 || started || sh == 0 {
+				sb.WriteByte(hexd[d])
+				started = true
+			}
+		}
+	}
+	return sb.String()
+}
+
+// addrString is the address of a direction as fq is expected to print it.
+func addrString(a netsim.Addr) string {
+	if a.V4Mapped() {
+		// an IPv4-mapped address has two customary notations, ::ffff:a.b.c.d and a.b.c.d; which one
+		// is printed is not part of the statement. fq (Go's net.IP) prints the dotted one.
+		return ipString([4]byte{a.B[12], a.B[13], a.B[14], a.B[15]})
+	}
+	if a.V6 {
+		return ip6String(a.B)
+	}
+	return ipString([4]byte{a.B[0], a.B[1], a.B[2], a.B[3]})
+}
+
+// hostPort joins address and port for messages ([addr]:port for IPv6).
+func hostPort(a netsim.Addr, port uint16) string {
+	if a.V6 {
+		return fmt.Sprintf("[%s]:%d", ip6String(a.B), port)
+	}
+	return fmt.Sprintf("%s:%d", addrString(a), port)
+}
+
 func hnetFnv64(b []byte) uint64 {
 	h := uint64(14695981039346656037)
 	for _, c := range b {
@@ -347,7 +422,7 @@ func (*hnet) Run(rc *core.RunCtx) *core.RunResult {
 		res.Violate("HARNESS", "generator", strings.SplitN(w.Err, ":", 2)[0], w.Err)
 		return res
 	}
-	spec := netsim.DrawCaptureSpec(rc.T, params)
+	spec := netsim.DrawCaptureSpec(rc.T, params, w)
 	key = spec.Family()
 	flavour = spec.Key()
 	capture := netsim.WriteCapture(w, spec)
@@ -388,6 +463,44 @@ func (*hnet) Run(rc *core.RunCtx) *core.RunResult {
 		}
 	}
 	res.Extra["connections"] += len(w.Conns)
+	// reach of the IPv6 extension: connections per family, mixed captures,
+	// extension headers, captures per single-family link type
+	n6 := 0
+	for _, cn := range w.Conns {
+		if cn.V6 {
+			n6++
+			for side := 0; side < 2; side++ {
+				switch cn.Ends[side].ExtKind() {
+				case 0:
+					res.Extra["ipv6_dir_hop_by_hop_header"]++
+				case 60:
+					res.Extra["ipv6_dir_destination_options_header"]++
+				}
+			}
+		}
+	}
+	res.Extra["connections_ipv6"] += n6
+	res.Extra["connections_ipv4"] += len(w.Conns) - n6
+	switch {
+	case n6 == 0:
+		res.Extra["capture_ipv4_only"]++
+	case n6 == len(w.Conns):
+		res.Extra["capture_ipv6_only"]++
+	default:
+		res.Extra["capture_mixed_ipv4_ipv6"]++
+	}
+	for _, l := range spec.Links {
+		switch l {
+		case netsim.LinkIPv4:
+			res.Extra["capture_linktype_ipv4_228"]++
+		case netsim.LinkIPv6:
+			res.Extra["capture_linktype_ipv6_229"]++
+		default:
+			if n6 > 0 {
+				res.Extra["ipv6_over_link_"+netsim.LinkName(l)]++
+			}
+		}
+	}
 
 	// the case, for humans
 	var conns []map[string]any
@@ -396,11 +509,15 @@ func (*hnet) Run(rc *core.RunCtx) *core.RunResult {
 		c, s := &ct.Dirs[0], &ct.Dirs[1]
 		totalData += len(c.Sent) + len(s.Sent)
 		conns = append(conns, map[string]any{
-			"client": fmt.Sprintf("%s:%d", ipString(c.IP), c.Port), "server": fmt.Sprintf("%s:%d", ipString(s.IP), s.Port),
+			"client": hostPort(c.Addr, c.Port), "server": hostPort(s.Addr, s.Port),
 			"client_bytes": len(c.Sent), "server_bytes": len(s.Sent), "client_isn": c.ISS, "server_isn": s.ISS,
 			"client_segments": c.DataSegs, "server_segments": s.DataSegs,
 			"client_expect": len(c.Expect), "server_expect": len(s.Expect),
 		})
+		if c.V6 {
+			// IPv6 extension header in front of TCP per direction (0 hop-by-hop, 60 destination options, -1 none)
+			conns[len(conns)-1]["ipv6_ext_header"] = []int{c.ExtKind, s.ExtKind}
+		}
 	}
 	res.Nontrivial = totalData > 0
 	res.Sample = map[string]any{"capture": flavour, "capture_bytes": len(capture), "packets": len(w.Tap), "mtu": w.MTU, "connections": conns, "reassembled_datagrams": len(tr.Reasm)}
@@ -527,7 +644,35 @@ func hnetCheck(flows *hnetFlows, tr *netsim.Truth, params netsim.Params, key str
 		for _, c := range flows.Conns {
 			got = append(got, fmt.Sprintf("%s:%d>%s:%d", c.Client.IP, c.Client.Port, c.Server.IP, c.Server.Port))
 		}
-		report("connection-count", "plain/"+key, fmt.Sprintf("the capture holds %d connections, %d reported: %v", len(tr.Conns), len(flows.Conns), got))
+		// the feature: ipv6 when a connection carried over IPv6 is not listed
+		// with its endpoints, or a listed connection that was not made has an
+		// IPv6 address
+		feat := "plain/"
+		matches := func(ct *netsim.ConnTruth, c *hnetConn) bool {
+			a, b := &ct.Dirs[0], &ct.Dirs[1]
+			fwd := c.Client.IP == addrString(a.Addr) && c.Client.Port == int(a.Port) && c.Server.IP == addrString(b.Addr) && c.Server.Port == int(b.Port)
+			rev := c.Client.IP == addrString(b.Addr) && c.Client.Port == int(b.Port) && c.Server.IP == addrString(a.Addr) && c.Server.Port == int(a.Port)
+			return fwd || rev
+		}
+		for i := range tr.Conns {
+			found := false
+			for j := range flows.Conns {
+				found = found || matches(&tr.Conns[i], &flows.Conns[j])
+			}
+			if f := tr.Conns[i].AddrFeature(); !found && f != "plain" && feat != "ipv6-v4mapped/" {
+				feat = f + "/"
+			}
+		}
+		for j := range flows.Conns {
+			found := false
+			for i := range tr.Conns {
+				found = found || matches(&tr.Conns[i], &flows.Conns[j])
+			}
+			if !found && feat == "plain/" && strings.Contains(flows.Conns[j].Client.IP+flows.Conns[j].Server.IP, ":") {
+				feat = "ipv6/"
+			}
+		}
+		report("connection-count", feat+key, fmt.Sprintf("the capture holds %d connections, %d reported: %v", len(tr.Conns), len(flows.Conns), got))
 	}
 	// IPv4 reassembly: every entry is a datagram the router fragmented, with
 	// its addresses, protocol and payload; every datagram whose fragments are
@@ -596,8 +741,8 @@ func hnetCheck(flows *hnetFlows, tr *netsim.Truth, params netsim.Params, key str
 				continue
 			}
 			c, sv := &flows.Conns[j].Client, &flows.Conns[j].Server
-			fwd := c.IP == ipString(a.IP) && c.Port == int(a.Port) && sv.IP == ipString(b.IP) && sv.Port == int(b.Port)
-			rev := c.IP == ipString(b.IP) && c.Port == int(b.Port) && sv.IP == ipString(a.IP) && sv.Port == int(a.Port)
+			fwd := c.IP == addrString(a.Addr) && c.Port == int(a.Port) && sv.IP == addrString(b.Addr) && sv.Port == int(b.Port)
+			rev := c.IP == addrString(b.Addr) && c.Port == int(b.Port) && sv.IP == addrString(a.Addr) && sv.Port == int(a.Port)
 			if fwd || rev {
 				return j
 			}
@@ -626,7 +771,7 @@ func hnetCheck(flows *hnetFlows, tr *netsim.Truth, params netsim.Params, key str
 		if !ct.FirstIsSYN && !params.Wide {
 			res.Extra["first_packet_not_client_syn"]++
 			a, b := &ct.Dirs[0], &ct.Dirs[1]
-			if got[0].IP == ipString(b.IP) && got[0].Port == int(b.Port) && got[1].IP == ipString(a.IP) && got[1].Port == int(a.Port) {
+			if got[0].IP == addrString(b.Addr) && got[0].Port == int(b.Port) && got[1].IP == addrString(a.Addr) && got[1].Port == int(a.Port) {
 				got[0], got[1] = got[1], got[0]
 				res.Extra["first_sender_labelled_client"]++
 			}
@@ -634,10 +779,10 @@ func hnetCheck(flows *hnetFlows, tr *netsim.Truth, params netsim.Params, key str
 		endpointsOK := true
 		for s := 0; s < 2; s++ {
 			d := &ct.Dirs[s]
-			if got[s].IP != ipString(d.IP) || got[s].Port != int(d.Port) {
+			if got[s].IP != addrString(d.Addr) || got[s].Port != int(d.Port) {
 				endpointsOK = false
-				report("endpoint-mismatch", "plain/"+key, fmt.Sprintf("connection %d (order of first captured packet) %s: expected %s:%d, reported %s:%d",
-					i, [2]string{"client", "server"}[s], ipString(d.IP), d.Port, got[s].IP, got[s].Port))
+				report("endpoint-mismatch", ct.AddrFeature()+"/"+key, fmt.Sprintf("connection %d (order of first captured packet) %s: expected address %s port %d, reported address %s port %d",
+					i, [2]string{"client", "server"}[s], addrString(d.Addr), d.Port, got[s].IP, got[s].Port))
 			}
 		}
 		if !endpointsOK {
